@@ -21,7 +21,10 @@ CONSTANTS Actors,       \* set of actor ids (strings)
           Local,        \* subset of Actors that are thread-local actors (ractor/src/thread_local/inner.rs):
                         \* linked before pre_start, pre_start on the spawner's thread, no state in events
           MonPairs,     \* set of <<monitor, target>> pairs the environment may establish (monitors feature)
-          Undecodable   \* message numbers whose payload does not decode (cluster builds; C19)
+          Undecodable,  \* message numbers whose payload does not decode (cluster builds; C19)
+          SweepKillsDraining \* subset of BOOLEAN: does terminate() send Kill to Draining descendants?
+                        \* {FALSE} = the code before the C05 repair (`<= Upgrading`), {TRUE} = after it
+                        \* (`< Stopping`); this module's properties hold either way, SupTree decides C05
 
 Unstarted == 0  Starting == 1  Running == 2  Upgrading == 3  Draining == 4  Stopping == 5  Stopped == 6
 Max(a, b) == IF a > b THEN a ELSE b
@@ -126,15 +129,17 @@ EnvAbort(a) ==
 -----------------------------------------------------------------------------
 (* Exit = two steps, as in the code: the loop (or start()) decides how the actor ends and what its
    supervisor is told (-> pc "exiting", `pend`), then ActorLifecycleGuard::cleanup tears it down.
-   terminate() sweeps the subtree: Kill to every descendant whose status is <= Upgrading, every
-   link below `a` removed, child sets closed. handle_signal() runs the same sweep at once.      *)
-Sweep(a, f) ==   \* f: the record `a` itself becomes
+   terminate() sweeps the subtree: Kill to every descendant whose status is <= Upgrading (kd: also
+   to Draining ones), every link below `a` removed, child sets closed. handle_signal() runs the
+   same sweep at once.                                                                           *)
+Sweep(a, f, kd) ==   \* f: the record `a` itself becomes
   LET D == Desc(a) IN
   [x \in Actors |->
      IF x = a THEN [f EXCEPT !.closed = TRUE]
      ELSE IF x \in D THEN
        [ac[x] EXCEPT !.par = NoA, !.closed = TRUE,
-                     !.sig = IF @ = "none" /\ ac[x].rxOpen /\ ac[x].st <= Upgrading THEN "sent" ELSE @]
+                     !.sig = IF @ = "none" /\ ac[x].rxOpen /\ (ac[x].st <= Upgrading \/ (kd /\ ac[x].st = Draining))
+                               THEN "sent" ELSE @]
      ELSE ac[x]]
 
 Exiting(r, kind, reason, evt) ==
@@ -150,8 +155,9 @@ Cleanup(a) ==
                             !.par = NoA, !.pend = NoEvt,
                             !.spawnRes = IF @ = "none" THEN "err" ELSE @,
                             !.nTerm = IF evt.ek # "none" /\ @ < 2 THEN @ + 1 ELSE @]
-         swept == Sweep(a, f)
-     IN ac' = IF evt.ek # "none" THEN Deliver(swept, a, p, evt) ELSE swept
+     IN \E kd \in SweepKillsDraining :
+          LET swept == Sweep(a, f, kd)
+          IN ac' = IF evt.ek # "none" THEN Deliver(swept, a, p, evt) ELSE swept
   /\ UNCHANGED <<nsent, ninj>>
 
 \* event classes (C04)
@@ -232,8 +238,9 @@ SigHandled(a) ==
          inLoop == pc \in {"idle", "gotMsg", "gotSup"} \/ (pc \in {"msg", "sup"} /\ susp)
          r == [ac[a] EXCEPT !.sig = "taken"]
      IN /\ inStart \/ noState \/ inLoop
-        /\ ac' = Sweep(a, IF inStart THEN Exiting(r, "startfail", "killed_in_start", NoEvt)
-                          ELSE Exiting(r, "kill", "killed", EvtTerm(a, inLoop /\ KillCarriesState, "killed")))
+        /\ \E kd \in SweepKillsDraining :
+             ac' = Sweep(a, IF inStart THEN Exiting(r, "startfail", "killed_in_start", NoEvt)
+                            ELSE Exiting(r, "kill", "killed", EvtTerm(a, inLoop /\ KillCarriesState, "killed")), kd)
   /\ UNCHANGED <<nsent, ninj>>
 
 \* pre_start returned: Ok => link, mark_running, spawn the loop task (same poll); Err/panic => fail
